@@ -426,13 +426,11 @@ def _custom_dims(tree) -> bool:
 def _product_create_params(tree) -> bool:
     """-> cf_dask_product_dedup"""
     fn = find_func(tree, "create_params", "ProductMode")
-    vals = []
-    for n in ast.walk(fn):
-        tgt = n.target if isinstance(n, ast.AnnAssign) else (n.targets[0] if isinstance(n, ast.Assign) and len(n.targets) == 1 else None)
-        if isinstance(tgt, ast.Name) and tgt.id == "all_steps":
-            vals.append(n.value)
-    if len(vals) != 1 or not isinstance(vals[0], ast.DictComp) or len(vals[0].generators) != 1:
-        fail(fn, "ProductMode.create_params: expected all_steps = {step.key: <values> for step in self.enabled_steps}")
+    # the dict of value lists, whatever it is called: the one dict comprehension over self.enabled_steps
+    vals = [n for n in ast.walk(fn) if isinstance(n, ast.DictComp) and len(n.generators) == 1
+            and _u(n.generators[0].iter) == "self.enabled_steps"]
+    if len(vals) != 1:
+        fail(fn, "ProductMode.create_params: expected one {step.key: <values> for step in self.enabled_steps}")
     c = vals[0]
     g = c.generators[0]
     if not (isinstance(g.target, ast.Name) and _u(g.iter) == "self.enabled_steps" and not g.ifs
